@@ -1036,7 +1036,11 @@ def _analyze_file(job):
                 if x["kind"] == "CharacterLiteral":
                     lits.append((fn.bpos(x), "c%d" % int(x.get("value", 0))))
                 elif x["kind"] == "StringLiteral" and len(str(x.get("value", ""))) <= 6:
-                    # short strings only (the search pattern "/."); trace / error message texts are not logic
+                    # short strings only (the search pattern "/."); trace / error message texts are not logic,
+                    # nor are strings that come out of a macro body (the "WARN" tag of debug_warn ...)
+                    b = (x.get("range") or {}).get("begin") or {}
+                    if "spellingLoc" in b or "expansionLoc" in b:
+                        continue
                     lits.append((fn.bpos(x), "s" + str(x.get("value", ""))))
             out["lits"].append(dict(fn=fn.name, file=frel, lits=[v for (_, v) in sorted(lits)]))
         for x in fn.nodes:
